@@ -21,6 +21,7 @@ Section StmtInd.
   Hypothesis HTry : forall b hs o f,
       Forall P b -> Forall (Forall P) hs -> Forall P o -> Forall P f -> P (STry b hs o f).
   Hypothesis HDef : forall b, Forall P b -> P (SDef b).
+  Hypothesis HMatch : forall cs, Forall (fun c => Forall P (snd c)) cs -> P (SMatch cs).
 
   Fixpoint stmt_ind' (s : stmt) : P s :=
     let go := fix go (l : list stmt) : Forall P l :=
@@ -32,6 +33,11 @@ Section StmtInd.
                  match l with
                  | [] => Forall_nil (Forall P)
                  | x :: t => Forall_cons x (go x) (go2 t)
+                 end in
+    let go3 := fix go3 (l : list (pat * mguard * list stmt)) : Forall (fun c => Forall P (snd c)) l :=
+                 match l with
+                 | [] => Forall_nil _
+                 | c :: t => Forall_cons c (go (snd c)) (go3 t)
                  end in
     match s with
     | SPass => HPass
@@ -47,12 +53,14 @@ Section StmtInd.
     | SWith b => HWith b (go b)
     | STry b hs o f => HTry b hs o f (go b) (go2 hs) (go o) (go f)
     | SDef b => HDef b (go b)
+    | SMatch cs => HMatch cs (go3 cs)
     end.
 End StmtInd.
 
 (* ---------------- the nested helper functions as top-level functions ---------------- *)
 Definition any_leave (l : list stmt) : bool := existsb may_leave l.
 Definition any_leave2 (l : list (list stmt)) : bool := existsb any_leave l.
+Definition any_leave_cases (l : list (pat * mguard * list stmt)) : bool := existsb (fun c => any_leave (snd c)) l.
 
 Lemma may_leave_eq : forall s,
   may_leave s =
@@ -64,6 +72,7 @@ Lemma may_leave_eq : forall s,
   | SIf _ body orelse => any_leave body || any_leave orelse
   | SWith body => any_leave body
   | STry body hs orelse final => any_leave body || any_leave2 hs || any_leave orelse || any_leave final
+  | SMatch cs => any_leave_cases cs
   | _ => false
   end.
 Proof. destruct s; reflexivity. Qed.
@@ -112,7 +121,7 @@ Qed.
 Lemma is_blocking_eq : forall s p, is_blocking s p = is_blocking_body s p.
 Proof.
   intros s p. unfold is_blocking_body.
-  destruct s as [| | | | | | t | t b o | t b o | it b o | b | b hs o f | b]; try reflexivity.
+  destruct s as [| | | | | | t | t b o | t b o | it b o | b | b hs o f | b | cs]; try reflexivity.
   - (* If *)
     destruct t; destruct p; unfold is_exception, direct; rewrite <- ?anyb_eq; reflexivity.
   - (* With *) destruct p; unfold is_exception, direct; rewrite <- ?anyb_eq; reflexivity.
@@ -122,6 +131,15 @@ Section SemEq.
   Variable sup : bool.
   Fixpoint outcomes_blocks (l : list (list stmt)) : outs :=
     match l with [] => o_none | x :: tl => o_union (outcomes_block sup x) (outcomes_blocks tl) end.
+  Fixpoint outcomes_cases (l : list (pat * mguard * list stmt)) : outs :=
+    match l with
+    | [] => mkO true false false false false
+    | c :: tl => match case_kind (fst c) with
+                 | CAlways => outcomes_block sup (snd c)
+                 | CNever => outcomes_cases tl
+                 | CMay => o_union (outcomes_block sup (snd c)) (outcomes_cases tl)
+                 end
+    end.
 End SemEq.
 
 Lemma outcomes_eq : forall sup s,
@@ -166,10 +184,12 @@ Lemma outcomes_eq : forall sup s,
       let pre := o_union (mkO false (o_r B) (o_e B) (o_b B) (o_c B))
                          (o_union (o_when (o_n B) O) (o_when (o_e B) H)) in
       o_union (o_when (o_n F) pre) (mkO false (o_r F) (o_e F) (o_b F) (o_c F))
+  | SMatch cs =>
+      let C := outcomes_cases sup cs in mkO (o_n C) (o_r C) true (o_b C) (o_c C)
   end.
 Proof.
   intros sup s.
-  destruct s as [| | | | | | t | t b o | t b o | it b o | b | b hs o f | b]; try reflexivity;
+  destruct s as [| | | | | | t | t b o | t b o | it b o | b | b hs o f | b | cs]; try reflexivity;
     try (destruct t; reflexivity); try (destruct it; reflexivity).
 Qed.
 
@@ -208,6 +228,21 @@ Proof.
     cbn [outcomes_blocks]. unfold o_union. cbn [o_b o_c]. rewrite Hb, Hc, Hb', Hc'. split; reflexivity.
 Qed.
 
+Lemma cases_no_leave : forall sup cs,
+  Forall (fun c => Forall (no_leave_P sup) (snd c)) cs -> any_leave_cases cs = false ->
+  o_b (outcomes_cases sup cs) = false /\ o_c (outcomes_cases sup cs) = false.
+Proof.
+  intros sup cs HF. induction HF as [| c tl Hc Htl IH]; intro Hl.
+  - split; reflexivity.
+  - change (any_leave_cases (c :: tl)) with (any_leave (snd c) || any_leave_cases tl) in Hl.
+    apply orb_false_iff in Hl. destruct Hl as [Hc0 Htl0].
+    destruct (block_no_leave sup (snd c) Hc Hc0) as [Hb Hc']. destruct (IH Htl0) as [Tb Tc].
+    cbn [outcomes_cases]. destruct (case_kind (fst c)).
+    + split; assumption.
+    + split; assumption.
+    + unfold o_union. cbn [o_b o_c]. rewrite Hb, Hc', Tb, Tc. split; reflexivity.
+Qed.
+
 (* a statement that contains no break/continue belonging to the enclosing loop cannot terminate by
    break or continue (whatever context managers do) *)
 Theorem may_leave_sound :
@@ -215,7 +250,7 @@ Theorem may_leave_sound :
     o_b (outcomes sup s) = false /\ o_c (outcomes sup s) = false.
 Proof.
   intros sup s. change (no_leave_P sup s).
-  induction s as [| | | | | | t | t b o Hb Ho | t b o Hb Ho | it b o Hb Ho | b Hb | b hs o f Hb Hhs Ho Hf | b Hb]
+  induction s as [| | | | | | t | t b o Hb Ho | t b o Hb Ho | it b o Hb Ho | b Hb | b hs o f Hb Hhs Ho Hf | b Hb | cs Hcs]
     using stmt_ind'; unfold no_leave_P; rewrite may_leave_eq, outcomes_eq; intro H;
     try discriminate; try (split; reflexivity).
   - destruct t; split; reflexivity.
@@ -242,6 +277,8 @@ Proof.
     rewrite B1, B2, F1, F2.
     destruct (o_n (outcomes_block sup f)), (o_n (outcomes_block sup b)), (o_e (outcomes_block sup b));
       cbn [o_b o_c o_none orb]; rewrite ?O1, ?O2, ?H1, ?H2; split; reflexivity.
+  - (* Match *)
+    destruct (cases_no_leave sup cs Hcs H) as [C1 C2]. cbv zeta. cbn [o_b o_c]. split; assumption.
 Qed.
 
 (* ---------------- is_blocking ---------------- *)
@@ -251,11 +288,14 @@ Fixpoint no_with (s : stmt) : bool :=
                match l with [] => true | x :: tl => no_with x && all tl end in
   let all2 := fix all2 (l : list (list stmt)) : bool :=
                match l with [] => true | x :: tl => all x && all2 tl end in
+  let allc := fix allc (l : list (pat * mguard * list stmt)) : bool :=
+               match l with [] => true | c :: tl => all (snd c) && allc tl end in
   match s with
   | SWith _ => false
   | SIf _ b o | SWhile _ b o | SFor _ b o => all b && all o
   | STry b hs o f => all b && all2 hs && all o && all f
   | SDef b => all b
+  | SMatch cs => allc cs
   | _ => true
   end.
 
@@ -268,6 +308,7 @@ Lemma no_with_eq : forall s,
   | SIf _ b o | SWhile _ b o | SFor _ b o => all_no_with b && all_no_with o
   | STry b hs o f => all_no_with b && forallb all_no_with hs && all_no_with o && all_no_with f
   | SDef b => all_no_with b
+  | SMatch cs => forallb (fun c => all_no_with (snd c)) cs
   | _ => true
   end.
 Proof. destruct s; reflexivity. Qed.
@@ -337,7 +378,7 @@ Qed.
 Lemma blocking_sound_gen : forall sup s, block_P sup s.
 Proof.
   intros sup s.
-  induction s as [| | | | | | t | t b o Hb Ho | t b o Hb Ho | it b o Hb Ho | b Hb | b hs o f Hb Hhs Ho Hf | b Hb]
+  induction s as [| | | | | | t | t b o Hb Ho | t b o Hb Ho | it b o Hb Ho | b Hb | b hs o f Hb Hhs Ho Hf | b Hb | cs Hcs]
     using stmt_ind'; unfold block_P; intros G p; rewrite is_blocking_eq, outcomes_eq;
     unfold is_blocking_body; intro H; try reflexivity.
   - destruct p; discriminate.
@@ -374,6 +415,7 @@ Proof.
     rewrite (any_block_sound false b p Hb (or_introl eq_refl) H). reflexivity.
   - destruct p; discriminate.
   - destruct p; discriminate.
+  - (* Match: never judged blocking *) destruct p; discriminate.
 Qed.
 
 (* T16.1: a statement judged blocking (in a function body / at module level) never completes normally,
@@ -440,7 +482,7 @@ Proof.
   assert (E1 : forall x, outcomes_block sup [x] = outcomes sup x).
   { intro x. cbn [outcomes_block]. destruct (outcomes sup x) as [n r e b c]. unfold o_seq. cbn.
     rewrite !andb_true_r, !andb_false_r, !orb_false_r. reflexivity. }
-  destruct s as [| | | | | | t | t b o | t b o | it b o | b | b hs o f | b];
+  destruct s as [| | | | | | t | t b o | t b o | it b o | b | b hs o f | b | cs];
     try (unfold apply_dead; cbn [dead_const]; apply E1).
   - (* If *)
     destruct t; [destruct b as [| x b'] | destruct o as [| x o'] |];
@@ -449,3 +491,138 @@ Proof.
     destruct t; try (unfold apply_dead; cbn [dead_const]; apply E1).
     destruct o as [| x o']; unfold apply_dead; cbn [dead_const]; rewrite ?E1, ?outcomes_eq; reflexivity.
 Qed.
+
+(* ---------------- match statements (seeded/C01-d) ---------------- *)
+(* T16.9a: core.is_blocking has no clause for ast.Match: a match statement is never judged blocking, under any
+   parent (conservative; the soundness theorems above cover it through the induction) *)
+Theorem match_never_blocking : forall cs p, is_blocking (SMatch cs) p = false.
+Proof. intros cs p. rewrite is_blocking_eq. destruct p; reflexivity. Qed.
+
+(* T16.9b: a break / continue of the enclosing loop inside ANY case body is seen by _may_leave_iteration *)
+Theorem match_case_leave_seen :
+  forall cs c, List.In c cs -> any_leave (snd c) = true -> may_leave (SMatch cs) = true.
+Proof.
+  intros cs c Hin Hc. rewrite may_leave_eq. unfold any_leave_cases.
+  apply existsb_exists. exists c. split; assumption.
+Qed.
+
+(* the loop scan of is_blocking with an arbitrary "may leave the iteration" test *)
+Fixpoint scan_with (ml : stmt -> bool) (l : list stmt) (ty : parent) (dflt : bool) : bool :=
+  match l with
+  | [] => dflt
+  | x :: tl => if ml x then false else if is_blocking x ty then true else scan_with ml tl ty dflt
+  end.
+
+Lemma scan_with_may_leave : forall l ty d, scan_with may_leave l ty d = scan l ty d.
+Proof. induction l as [| x tl IH]; intros ty d; [reflexivity |]. cbn [scan_with scan]. rewrite IH. reflexivity. Qed.
+
+(* R16.9: the walk of seeded/C01-d (statement-list fields only, Match.cases forgotten) is refuted: it misses a
+   break that does leave the loop, and a `while True:` scanned with it is judged impossible to get past
+   although it completes normally; same for a literal `for` whose case does `continue` before a return *)
+Theorem stmt_list_walk_refuted :
+  (exists s, may_leave_stmt_lists s = false /\ o_b (outcomes false s) = true) /\
+  (exists body, scan_with may_leave_stmt_lists body PWhile true = true /\
+                o_n (outcomes false (SWhile TTrue body [])) = true) /\
+  (exists body, scan_with may_leave_stmt_lists body PFor false = true /\
+                o_n (outcomes false (SFor INonEmpty body [])) = true).
+Proof.
+  split; [| split].
+  - exists (SMatch [(PatOpaque, MGNone, [SBreak])]). split; vm_compute; reflexivity.
+  - exists [SMatch [(PatOpaque, MGNone, [SBreak])]]. split; vm_compute; reflexivity.
+  - exists [SMatch [(PatOpaque, MGNone, [SContinue])]; SReturn]. split; vm_compute; reflexivity.
+Qed.
+
+(* ... and it is fine on trees without a match statement (the partial counterpart of R16.9) *)
+Fixpoint no_match (s : stmt) : bool :=
+  let all := fix all (l : list stmt) : bool :=
+               match l with [] => true | x :: tl => no_match x && all tl end in
+  let all2 := fix all2 (l : list (list stmt)) : bool :=
+               match l with [] => true | x :: tl => all x && all2 tl end in
+  match s with
+  | SMatch _ => false
+  | SIf _ b o | SWhile _ b o | SFor _ b o => all b && all o
+  | SWith b => all b
+  | STry b hs o f => all b && all2 hs && all o && all f
+  | _ => true                      (* a nested def is a separate scope: neither walk enters it *)
+  end.
+
+Definition all_no_match (l : list stmt) : bool := forallb no_match l.
+Definition any_leave' (l : list stmt) : bool := existsb may_leave_stmt_lists l.
+
+Lemma no_match_eq : forall s,
+  no_match s =
+  match s with
+  | SMatch _ => false
+  | SIf _ b o | SWhile _ b o | SFor _ b o => all_no_match b && all_no_match o
+  | SWith b => all_no_match b
+  | STry b hs o f => all_no_match b && forallb all_no_match hs && all_no_match o && all_no_match f
+  | _ => true
+  end.
+Proof. destruct s; reflexivity. Qed.
+
+Lemma may_leave_stmt_lists_eq : forall s,
+  may_leave_stmt_lists s =
+  match s with
+  | SBreak | SContinue => true
+  | SDef _ => false
+  | SWhile _ _ orelse => any_leave' orelse
+  | SFor _ _ orelse => any_leave' orelse
+  | SIf _ body orelse => any_leave' body || any_leave' orelse
+  | SWith body => any_leave' body
+  | STry body hs orelse final => any_leave' body || existsb any_leave' hs || any_leave' orelse || any_leave' final
+  | _ => false
+  end.
+Proof. destruct s; reflexivity. Qed.
+
+Definition agree_P (s : stmt) : Prop := no_match s = true -> may_leave_stmt_lists s = may_leave s.
+
+Lemma agree_block : forall l, Forall agree_P l -> all_no_match l = true -> any_leave' l = any_leave l.
+Proof.
+  intros l HF. induction HF as [| x tl Hx Htl IH]; intro H; [reflexivity |].
+  change (all_no_match (x :: tl)) with (no_match x && all_no_match tl) in H.
+  apply andb_true_iff in H. destruct H as [H1 H2].
+  change (any_leave' (x :: tl)) with (may_leave_stmt_lists x || any_leave' tl).
+  change (any_leave (x :: tl)) with (may_leave x || any_leave tl).
+  rewrite (Hx H1), (IH H2). reflexivity.
+Qed.
+
+Lemma agree_blocks : forall hs, Forall (Forall agree_P) hs -> forallb all_no_match hs = true ->
+  existsb any_leave' hs = any_leave2 hs.
+Proof.
+  intros hs HF. induction HF as [| h tl Hh Htl IH]; intro H; [reflexivity |].
+  cbn [forallb] in H. apply andb_true_iff in H. destruct H as [H1 H2].
+  change (any_leave2 (h :: tl)) with (any_leave h || any_leave2 tl).
+  cbn [existsb]. rewrite (agree_block h Hh H1), (IH H2). reflexivity.
+Qed.
+
+Theorem stmt_list_walk_partial_no_match :
+  forall s, no_match s = true -> may_leave_stmt_lists s = may_leave s.
+Proof.
+  intro s. change (agree_P s).
+  induction s as [| | | | | | t | t b o Hb Ho | t b o Hb Ho | it b o Hb Ho | b Hb | b hs o f Hb Hhs Ho Hf | b Hb | cs Hcs]
+    using stmt_ind'; unfold agree_P; rewrite no_match_eq, may_leave_stmt_lists_eq, may_leave_eq; intro H;
+    try reflexivity; try discriminate.
+  - apply andb_true_iff in H. destruct H as [H1 H2].
+    rewrite (agree_block b Hb H1), (agree_block o Ho H2). reflexivity.
+  - apply andb_true_iff in H. destruct H as [H1 H2]. exact (agree_block o Ho H2).
+  - apply andb_true_iff in H. destruct H as [H1 H2]. exact (agree_block o Ho H2).
+  - exact (agree_block b Hb H).
+  - apply andb_true_iff in H. destruct H as [H Hf0].
+    apply andb_true_iff in H. destruct H as [H Ho0].
+    apply andb_true_iff in H. destruct H as [Hb0 Hh0].
+    rewrite (agree_block b Hb Hb0), (agree_block o Ho Ho0), (agree_block f Hf Hf0), (agree_blocks hs Hhs Hh0).
+    reflexivity.
+Qed.
+
+Example stmt_list_walk_partial_nonvacuous :
+  no_match (SWhile TTrue [STry [SBreak] [[SPass]] [] []; SFor IUnknown [SBreak] [SContinue]] []) = true
+  /\ may_leave (SFor IUnknown [SBreak] [SContinue]) = true.
+Proof. split; reflexivity. Qed.
+
+(* the reference semantics of match is not trivial: exhaustive = an irrefutable last case *)
+Example match_semantics_examples :
+  o_n (outcomes false (SMatch [(PatOpaque, MGNone, [SReturn]); (PatWild, MGNone, [SRaise])])) = false /\
+  o_n (outcomes false (SMatch [(PatOpaque, MGNone, [SReturn]); (PatOpaque, MGIf TUnknown, [SRaise])])) = true /\
+  o_n (outcomes false (SMatch [(PatWild, MGIf TFalse, [SPass]); (PatWild, MGIf TTrue, [SBreak])])) = false /\
+  o_b (outcomes false (SMatch [(PatWild, MGIf TFalse, [SPass]); (PatWild, MGIf TTrue, [SBreak])])) = true.
+Proof. repeat split; reflexivity. Qed.
